@@ -18,6 +18,7 @@ def run(tier, seed):
     wiring.entry_point_obligations(rep, tier)
     wiring.inheritance_obligations(rep, tier)
     wiring.derived_start_obligations(rep, tier)
+    wiring.derived_namespace_obligations(rep, tier)
     wiring.ignored_rule_is_memoised(rep, tier)
     rep.assumptions.append('A-schematic: chains of length 3 over the stated family (ignore none/named/anonymous per level, X overridden plainly / with super / not at all, '
                            'new rules referring to rules of every ancestor, plain and dotted names); rule bodies are placeholders')
